@@ -685,6 +685,16 @@ func runC11(c *core.Ctx) core.Meta {
 			RetrieveEffect,
 			FieldWriteEffect("h2d-map-write", "CommandProcessor.bottomMemCopyH2DReqIDToTopReqMap"),
 			FieldWriteEffect("d2h-map-write", "CommandProcessor.bottomMemCopyD2HReqIDToTopReqMap"),
+			{Label: "queue-pop", Consume: true, Match: func(n *core.Node) bool {
+				// *reqs = (*reqs)[1:] through a pointer parameter (DMAEngine.send)
+				st, ok := n.Instr.(*ssa.Store)
+				if !ok {
+					return false
+				}
+				_, isParam := st.Addr.(*ssa.Parameter)
+				_, isSlice := st.Val.(*ssa.Slice)
+				return isParam && isSlice
+			}},
 		},
 		SkipRoots: cpSequencers,
 		OnlyFuncs: func(name string) bool {
